@@ -13,6 +13,14 @@ CASES = [
      'function main() -> void { int x = 1; if (true) { int y = 2; echo(x + y); } }', '3', 'inner block sees the enclosing block'),
     ('lookup.scope_walk.finds_innermost_binding',
      'function f(int a) -> int { int b = a + 1; return b; }\nfunction main() -> void { int a = 10; int b = 20; echo(f(1)); echo(a + b); }', '2\n30', 'a callee with the same local names as its caller'),
+    ('frame_setup.call.caller_scopes_untouched',
+     'function bump(int n) -> int { n = n + 1; return n; }\nfunction main() -> void { int n = 10; int r = bump(1); echo(n); echo(r); }', '10\n2', "binding / updating a parameter must not touch the caller's local of the same name"),
+    ('frame_setup.call.every_parameter_is_bound_in_the_new_frame',
+     'function fact(int n) -> int { if (n <= 1) { return 1; } int r = fact(n - 1); return n * r; }\nfunction main() -> void { echo(fact(4)); }', '24', 'each recursive activation has its own parameter'),
+    ('frame_setup.callMethod.caller_scopes_untouched',
+     'class K { public constructor() -> K = default; public function bump(int n) -> int { n = n + 1; return n; } }\nfunction main() -> void { K k = new K(); int n = 10; int r = k.bump(1); echo(n); echo(r); }', '10\n2', "a method parameter must not alias the caller's local of the same name"),
+    ('frame_setup.runConstructorChain.caller_scopes_untouched',
+     'class K { public int v; public constructor(int n) -> K { n = n + 1; this.v = n; return this; } }\nfunction main() -> void { int n = 10; K k = new K(1); echo(n); echo(k.v); }', '10\n2', "a constructor parameter must not alias the caller's local of the same name"),
 ]
 def run(bloch, src):
     d = tempfile.mkdtemp(prefix='scope_'); p = os.path.join(d, 'p.bloch'); open(p, 'w').write(src)
